@@ -119,7 +119,7 @@ def check_clip_of_font(ctx, res, case, out):
         box = clips.get(g)
         has_paint = sc is not None and any(len(list(l.path.segments)) for l in sc.leaves)
         if not has_paint:
-            if box is not None and g in bases:
+            if box is not None:
                 res.add_cex("a glyph that paints nothing has a clip box", {"case": case, "glyph": g}, {"site": "clip-unpainted", "case": case["id"]})
             continue
         if box is None:
@@ -166,9 +166,26 @@ def check_clip_of_font(ctx, res, case, out):
                     break
 
 
+def with_empty_and_twin(case):
+    """the same set with (a) a source that paints nothing right after the first glyph and (b) a copy of the first glyph as the last one
+    (two NON-adjacent glyphs with identical bounds)"""
+    import re
+    c = dict(case)
+    svgs = list(case["svgs"])
+    vb = re.search(r'viewBox="([^"]+)"', svgs[0]).group(1)
+    empty = f'<svg xmlns="http://www.w3.org/2000/svg" viewBox="{vb}"></svg>'
+    svgs = [svgs[0], empty] + svgs[1:] + [svgs[0]]
+    c["svgs"] = svgs
+    c["codepoints"] = [[0xE100 + k] for k in range(len(svgs))]
+    c["id"] = case["id"] + ":empty+twin"
+    return c
+
+
 def suite_fonts(ctx, res, n):
     ops, meta = [], []
-    for case in fontgen.gen_cases(ctx.rng, n, formats=["glyf_colr_1", "glyf_colr_1", "cff_colr_1"]):
+    cases = list(fontgen.gen_cases(ctx.rng, n, formats=["glyf_colr_1", "glyf_colr_1", "cff_colr_1"]))
+    cases += [with_empty_and_twin(c) for c in cases[:max(3, n // 8)]]
+    for case in cases:
         with BoundsRecorder() as rec:
             out = fontgen.build(case)
         res.count(key=("font", case["id"]), nontrivial=True)
